@@ -100,7 +100,7 @@ def cases(tier: str, seed: int) -> list[dict]:
         # on-disk encoding of the coordinates: a finite _FillValue marking the cells without coordinates, or packed integers
         # (what the file means is what emsarray.open_dataset decodes; the command line must read it the same way)
         w["coordenc"] = {"cf1d": "packed", "cf2d": "fill", "shoc_simple": "packed", "shoc_standard": "fill"}.get(conv)
-        CD.add_data_vars(w, rng, rich=False)
+        CD.add_data_vars(w, rng, rich=False, packed=True)
         geoms = GW.clip_geometries(w, rng)
         pts = GW.probe_points(w, rng, limit=12)
         cli = []
@@ -327,7 +327,7 @@ def execute(case: dict) -> dict:
                 kw = {"point_dimension": e["dim"]} if e.get("dim") else {}
                 r = point_extraction.extract_dataframe(d, df, ("lon", "lat"), missing_points=e["policy"], **kw)
                 p = work / "lib.nc"
-                to_netcdf_with_fixes(r, p, time_variable=d.ems.time_coordinate.name)
+                r.to_netcdf(p)          # xarray's own writer: what the library call returned, as it stands
                 return proj_nc(p)
             e["lib"] = outcome(lib)
         else:
